@@ -8225,7 +8225,7 @@ impl<'a> Parser<'a> {
                 Token::Word(w) => {
                     idents.push(w.to_ident());
                 }
-                Token::EOF | Token::Eq => break,
+                Token::EOF | Token::Eq | Token::SemiColon => break,
                 _ => {}
             }
             self.next_token();
